@@ -10,6 +10,7 @@ import GoBT.Interp.Exec
 import GoBT.Interp.Dispatch
 import GoBT.Gen.Opcodes
 import GoBT.Gen.Limits
+import GoBT.Interp.NumLemmas
 namespace GoBT.C05
 open GoBT GoBT.Interp GoBT.Script
 
@@ -151,6 +152,42 @@ theorem isMinimalNum_iff (v : Bytes) :
       | nil => simp [h7]
       | cons prev r2 => simp [h7]
     · simp [h7]
+
+/-- **Script numbers are the integers.**  Decoding the encoding of any integer returns it; the encoding is minimal;
+    `makeScriptNumber` (with or without the minimal-data requirement) accepts it whenever it fits the length limit. -/
+theorem script_numbers_are_integers (z : Int) :
+    decodeNum (encodeNum z) = z ∧ isMinimalNum (encodeNum z) = true ∧
+    ∀ maxLen req, (encodeNum z).length ≤ maxLen → makeScriptNumber (encodeNum z) maxLen req = .ok z :=
+  ⟨decodeNum_encodeNum z, isMinimalNum_encodeNum z, fun m r h => makeScriptNumber_encodeNum z m r h⟩
+
+theorem toNum_encodeNum (env : Env) (z : Int) (h : (encodeNum z).length ≤ env.cfg.maxNumLen) :
+    toNum env (encodeNum z) = .ok z := by
+  unfold toNum
+  rw [makeScriptNumber_encodeNum z _ _ h]
+
+/-- **Arithmetic opcodes compute on ℤ**: a binary numeric opcode applied to the encodings of `a` (second from top) and
+    `b` (top) leaves the encoding of `f a b` — exact integer arithmetic, no wrap-around — or `f`'s error; operands
+    only have to respect the era's length limit. -/
+theorem binary_opcode_on_integers (env : Env) (s : St) (f : Int → Int → Except String Int) (a b : Int) (r : List Bytes)
+    (hs : s.ds = encodeNum b :: encodeNum a :: r)
+    (ha : (encodeNum a).length ≤ env.cfg.maxNumLen) (hb : (encodeNum b).length ≤ env.cfg.maxNumLen) :
+    binaryNum env s f = (match f a b with
+      | .ok z => .ok { s with ds := encodeNum z :: r }
+      | .error e => .err e) := by
+  unfold binaryNum
+  rw [hs]
+  simp only [toNum_encodeNum env a ha, toNum_encodeNum env b hb]
+  cases f a b <;> rfl
+
+/-- e.g. OP_ADD, OP_SUB, OP_MUL: the sum / difference / product of the two integers, whatever their size -/
+theorem add_sub_mul_exact (env : Env) (cur : List POp) (off : Nat) (s : St) (a b : Int) (r : List Bytes)
+    (hs : s.ds = encodeNum b :: encodeNum a :: r)
+    (ha : (encodeNum a).length ≤ env.cfg.maxNumLen) (hb : (encodeNum b).length ≤ env.cfg.maxNumLen) :
+    handler env cur off ⟨0x93, [], 1⟩ s = .ok { s with ds := encodeNum (a + b) :: r } ∧
+    handler env cur off ⟨0x94, [], 1⟩ s = .ok { s with ds := encodeNum (a - b) :: r } ∧
+    handler env cur off ⟨0x95, [], 1⟩ s = .ok { s with ds := encodeNum (a * b) :: r } := by
+  refine ⟨?_, ?_, ?_⟩ <;>
+    simp [handler, handlerNum, binary_opcode_on_integers env s _ a b r hs ha hb]
 
 /-! ### non-vacuity / executable spot checks of the numeric layer (exhaustive ranges are run by the driver) -/
 example : decodeNum (encodeNum (-255)) = -255 ∧ encodeNum 128 = [0x80, 0x00] ∧ encodeNum (-128) = [0x80, 0x80] ∧
